@@ -11,7 +11,8 @@ I(m) == PIns(m, <<>>)
 Leaves == {I("a"), I("b"), I("c")}
 Bin(X, Y) == {PAnd(<<X, Y>>), POr(<<X, Y>>), PPerm(<<X, Y>>)}
 D1 == UNION { Bin(X, Y) : <<X, Y>> \in { xy \in Leaves \X Leaves : xy[1] # xy[2] } }
-      \cup { POr(<<I("a"), I("b"), I("c")>>), PPerm(<<I("a"), I("b"), I("c")>>) }
+      \cup { POr(<<I("a"), I("b"), I("c")>>), PPerm(<<I("a"), I("b"), I("c")>>),
+              PPerm(<<I("a"), I("a")>>), PPerm(<<I("a"), I("a"), I("b")>>), PPerm(<<POr(<<I("a"), I("b")>>), POr(<<I("a"), I("b")>>), I("c")>>) }
 Inner == IF Depth2 = "full" THEN D1 ELSE Bin(I("a"), I("b")) \cup {PPerm(<<I("b"), I("a")>>)}
 D2 == UNION { Bin(g, X) \cup Bin(X, g) : <<g, X>> \in Inner \X Leaves }
       \cup UNION { Bin(g, h) : <<g, h>> \in Bin(I("a"), I("b")) \X Bin(I("b"), I("c")) }
@@ -23,7 +24,7 @@ ListingsI == ListingsOver(BodiesI, 0, MaxListing)
 \* ---- operand level --------------------------------------------------------
 X == OLit("x")  Y == OLit("y")  Z == OLit("z")
 OBin(A, B) == {OAnd(<<A, B>>), OOr(<<A, B>>), OPerm(<<A, B>>)}
-OG1 == OBin(X, Y) \cup {OOr(<<X, Y, Z>>), OPerm(<<X, Y, Z>>)}
+OG1 == OBin(X, Y) \cup {OOr(<<X, Y, Z>>), OPerm(<<X, Y, Z>>), OPerm(<<X, X>>), OPerm(<<X, Y, X>>)}
 OG2 == UNION { OBin(g, Z) \cup OBin(Z, g) : g \in OBin(X, Y) }
        \cup { OOr(<<OAnd(<<X, Y>>), Z>>), OAnd(<<OOr(<<X, Y>>), OOr(<<Y, Z>>)>>) }
 OGroups == OG1 \cup OG2
@@ -44,6 +45,7 @@ PatternsD ==
     { PAnd(<<PIns("m", <<Deref(<<DField("main_reg", FOr(<<FLit("rax"), FLit("rbx")>>))>>)>>)>>),
       PAnd(<<PIns("m", <<Deref(<<DField("main_reg", FOr(<<FLit("rax"), FLit("rbx")>>)),
                                  DField("constant_offset", FOr(<<FLit("0x8"), FLit("0x10")>>))>>), X>>)>>),
+      PAnd(<<PIns("m", <<Deref(<<DField("main_reg", FLit("rax")), DField("constant_offset", FOr(<<FLit("0x8"), FLit("0x80")>>))>>)>>)>>),
       PAnd(<<PIns("m", <<Deref(<<DField("main_reg", FLit("rax")),
                                  DField("register_multiplier", FOr(<<FLit("rbx"), FLit("rcx")>>)),
                                  DField("constant_multiplier", FOr(<<FLit("4"), FLit("8")>>))>>)>>)>>) }
